@@ -84,6 +84,9 @@ def run_scratch(sid, props=None):
                          % (wt, sid, V, sid, V, p), cwd=V, timeout=1800)
             lines = [l for l in out.splitlines() if l.startswith(('VIOLATION', 'UNDECIDED', 'CHECKER-LIMIT', 'PROOF'))]
             res[(sid, p)] = (rc, lines)
+            os.makedirs(os.path.join(V, 'out', 'seeded', sid), exist_ok=True)
+            json.dump({'id': sid, 'check': p, 'exit': rc, 'lines': lines, 'seconds': round(time.time() - t)},
+                      open(os.path.join(V, 'out', 'seeded', sid, 'result_%s.json' % p), 'w'), indent=1)
             print(sid, p, 'exit', rc, '%.0fs' % (time.time() - t), flush=True)
             for l in lines[:4]:
                 print('    ', l[:220], flush=True)
@@ -92,9 +95,47 @@ def run_scratch(sid, props=None):
     return res
 
 
+def do_report():
+    """seeded/RESULTS.md + RESULTS.json from the last scratch run of every stored change (its own property's check)"""
+    import re
+    rows = []
+    for sid in sorted(os.listdir(os.path.join(V, 'seeded'))):
+        d = os.path.join(V, 'seeded', sid)
+        if not os.path.isdir(d):
+            continue
+        prop = sid.split('-')[0]
+        rp = os.path.join(V, 'out', 'seeded', sid, 'result_%s.json' % prop)
+        meta = json.load(open(os.path.join(d, 'meta.json')))
+        if not os.path.exists(rp):
+            rows.append({'id': sid, 'exit': None, 'caught_by': 'not run', 'first': '', 'summary': meta['summary'][:200]})
+            continue
+        r = json.load(open(rp))
+        proof = [re.search(r'obligation=(.*?)(?: no-failing-input-found)?$', l).group(1) for l in r['lines'] if 'obligation=' in l]
+        orc = [re.search(r'key=(\S+)', l).group(1) for l in r['lines'] if 'bounded-oracle' in l]
+        by = 'proof obligation' if proof else ('bounded oracle' if orc else ('MISSED' if r['exit'] == 0 else 'exit %s' % r['exit']))
+        rows.append({'id': sid, 'exit': r['exit'], 'caught_by': by, 'first': (proof or orc or [''])[0][:150],
+                     'summary': meta['summary'][:200].replace('\n', ' ')})
+    json.dump(rows, open(os.path.join(V, 'seeded', 'RESULTS.json'), 'w'), indent=1)
+    n = len(rows)
+    npr = sum(1 for r in rows if r['caught_by'] == 'proof obligation')
+    nor = sum(1 for r in rows if r['caught_by'] == 'bounded oracle')
+    with open(os.path.join(V, 'seeded', 'RESULTS.md'), 'w') as f:
+        f.write('# Seeded changes vs. the checks\n\nGenerated by `python3 tools/seeded.py scratch <ids>` + `report` (quick tier, each '
+                'change applied to a scratch worktree of /repo HEAD, the check of its own property run against it).\n\n')
+        f.write('%d changes: %d caught by a named proof obligation, %d by the bounded oracle only, %d other.\n\n'
+                % (n, npr, nor, n - npr - nor))
+        f.write('| change | exit | caught by | first failing obligation / oracle key | what was changed |\n|---|---|---|---|---|\n')
+        for r in rows:
+            f.write('| %s | %s | %s | `%s` | %s |\n' % (r['id'], r['exit'], r['caught_by'], r['first'].replace('|', '/'),
+                                                        r['summary'].replace('|', '/')))
+    print(n, 'changes;', npr, 'proof;', nor, 'oracle only')
+
+
 if __name__ == '__main__':
     if sys.argv[1] == 'import':
         do_import(sys.argv[2], sys.argv[3])
+    elif sys.argv[1] == 'report':
+        do_report()
     elif sys.argv[1] == 'scratch':
         for sid in sys.argv[2:]:
             run_scratch(sid)
